@@ -2,7 +2,7 @@
    program AST and encoders of the emitted PIL lines. *)
 From Coq Require Import List String Ascii Arith Bool.
 From Coq Require Import ZArith.
-From PC Require Import Base.Sexp Comp.Syntax Comp.Struct Comp.Wild Comp.Compile Comp.WfCheck Comp.WfPil Subst.VarSubst Run.RC13.
+From PC Require Import Base.Sexp Comp.Syntax Comp.Struct Comp.Wild Comp.Compile Comp.WfCheck Comp.WfPil Comp.NameProofs Subst.VarSubst Run.RC13.
 Import ListNotations.
 Local Open Scope string_scope.
 
@@ -151,7 +151,7 @@ Definition run_comp (req : sexp) : sexp :=
       match dN ctr, d_declare d, dL d_stmt body with
       | Some ctr, Some d, Some body =>
           match compile_comp ctr prefix d body with
-          | OK (c, ctr') => sOk (Li [sN ctr'; sL s_pline (emit_comp c); sB (wf_check c && wf_check2 c); s_objs c])
+          | OK (c, ctr') => sOk (Li [sN ctr'; sL s_pline (emit_comp c); sB (wf_check c && wf_check2 c); s_objs c; sB (body_nostarb body)])
           | Err k => sErr k
           end
       | _, _, _ => bad_request
